@@ -46,6 +46,22 @@ def edom(fn, tgt, b):
     return len(entries) <= 1
 
 
+def move_aliases(fn, local):
+    """Locals that receive the value of `local` through plain whole-local moves / copies (inlined returns, named temporaries)."""
+    out = {local}
+    changed = True
+    while changed:
+        changed = False
+        for b in fn.blocks:
+            for s in b['stmts']:
+                if s['k'] == 'assign' and not s['pl']['p'] and s['rv']['k'] == 'use' and s['rv']['op']['k'] in ('move', 'copy'):
+                    pl = s['rv']['op']['pl']
+                    if not pl['p'] and pl['l'] in out and s['pl']['l'] not in out and len(fn.defs().get(s['pl']['l'], [])) == 1:
+                        out.add(s['pl']['l'])
+                        changed = True
+    return out
+
+
 def switch_of_local(fn, local, start_bb, max_steps=6):
     """Find the switch that tests `local` (directly if bool, or via discriminant(local)) at/after start_bb along straight-line flow.
     Returns (switch bb, {value: target}, otherwise) or None."""
@@ -181,6 +197,7 @@ def edge_for(edges, adt, variant):
 def inner_switch(fn, local, outer_variant, start_bb):
     """Switch on discriminant((local as Variant).0) starting at start_bb (nested match on Poll<Result<..>>)."""
     bb = start_bb
+    locs = move_aliases(fn, local)
     for _ in range(6):
         b = fn.blocks[bb]
         t = b['term']
@@ -190,7 +207,7 @@ def inner_switch(fn, local, outer_variant, start_bb):
             for s in b['stmts']:
                 if s['k'] == 'assign' and s['rv']['k'] == 'discr':
                     pl = s['rv']['pl']
-                    if pl['l'] == local and any(p['k'] == 'downcast' and p['v'] == outer_variant for p in pl['p']):
+                    if pl['l'] in locs and any(p['k'] == 'downcast' and p['v'] == outer_variant for p in pl['p']):
                         m = dict((v, tb) for v, tb in t['targets'])
                         m['otherwise'] = t['otherwise']
                         m['_bb'] = bb
@@ -294,7 +311,9 @@ def _variant_of(fn, ty, val):
     return fn.facts.variant_by_discr(head, val)
 
 
-def feasible_reach(fn, src, targets, avoid, limit=40000):
+def feasible_reach(fn, src, targets, avoid, limit=40000, overrides=None):
+    """Is a block of `targets` reachable from `src` along a path that is feasible under constant propagation of bools / enum variants and
+    avoids `avoid`?  `overrides` gives values to assume for locals whose assignment the propagation cannot evaluate."""
     targets, avoid = set(targets), set(avoid)
     untracked = fn.mut_borrowed()
     start = (0, (), src == 0)
@@ -339,6 +358,8 @@ def feasible_reach(fn, src, targets, avoid, limit=40000):
                 v0 = _vget(V, rv['pl']['l'])
                 if v0 and v0[0] == 'enum':
                     val = ('discof', rv['pl']['l'])
+            if val is None and overrides and l in overrides:
+                val = overrides[l]
             V = _vset(V, l, None if l in untracked else val)
         t = b['term']
         if not t:
